@@ -838,7 +838,9 @@ type scriptFontmap struct {
 	start int
 }
 
-func (sf *scriptFontmap) SetScript(s language.Script) { sf.start = int(uint32(s) % uint32(len(sf.faces))) }
+func (sf *scriptFontmap) SetScript(s language.Script) {
+	sf.start = int(uint32(s) % uint32(len(sf.faces)))
+}
 func (sf *scriptFontmap) ResolveFace(r rune) *font.Face {
 	n := len(sf.faces)
 	for k := 0; k < n; k++ {
